@@ -46,11 +46,11 @@ GROUPS = {
     # for, try/finally, if, while): blocks that are not scopes
     "blocks": dict(Kinds={"function", "class"}, Ops={"bind", "use", "param", "import", "global"}, ScopeNames={"a"},
                    Blocks={"none", "with0", "for", "try", "if", "while"},
-                   quick=({"a"}, 2, 3), thorough=({"a"}, 3, 3)),
+                   quick=({"a"}, 2, 3), thorough=({"a"}, 2, 4)),
     # classes with __init__ and / or __call__: keyword arguments at the construction site
     # and at the call of the instance
     "methods": dict(Kinds={"function", "class"}, Ops={"bind", "use", "param", "kwcall"}, ScopeNames=set(),
-                    Roles={"plain", "init", "call"}, quick=({"a"}, 4, 3), thorough=({"a"}, 4, 4)),
+                    Roles={"init", "call"}, replay_all=True, quick=({"a"}, 4, 3), thorough=({"a"}, 4, 4)),
     "core2": dict(Kinds={"function", "class"}, Ops=CORE, ScopeNames=set(),
                   quick=({"a", "b"}, 2, 4), thorough=({"a", "b"}, 3, 4)),
     "defnames": dict(Kinds={"function", "class"}, Ops={"bind", "use", "global", "nonlocal", "param"},
